@@ -73,7 +73,7 @@ func VH_C03_hostile() {
 		chain += "0"
 		spec.accept(chain, true, false)
 		regular = append(regular, chain)
-		snd.SendMsg(&types.Packet{Type: types.PACKET_STAT, Stat: &types.Stat{Path: chain, Mode: uint32(os.ModeDir) | 0755, Uid: 9, Gid: 9, ModTime: vh_mtimeChoices[0]}})
+		snd.SendMsg(&types.Packet{Type: types.PACKET_STAT, Stat: &types.Stat{Path: chain, Mode: uint32(os.ModeDir) | 0755, Uid: 9, Gid: 9, ModTime: vh_mtimes()[0]}})
 	}
 	for i := 0; i < k && !offending; i++ {
 		if v.Bool("is-data") {
@@ -100,7 +100,7 @@ func VH_C03_hostile() {
 		} else {
 			mode = v.U32("mode")
 		}
-		st := &types.Stat{Path: p, Mode: mode, Linkname: link, Uid: 9, Gid: 9, ModTime: vh_mtimeChoices[0]}
+		st := &types.Stat{Path: p, Mode: mode, Linkname: link, Uid: 9, Gid: 9, ModTime: vh_mtimes()[0]}
 		fm := os.FileMode(mode)
 		ok := spec.accept(p, fm.IsDir(), false)
 		// an entry the receiver turns into a hard link: not a directory / device / fifo / symlink, with a link name
